@@ -27,11 +27,11 @@ SLOT = "\x01"
 GDECL = "const int k = 1; int g; int h[2]; clock x; chan c[4]; int fn(int a) { return a + k; }"
 LABELS = {  # kind -> (xpath of the faulted label, slots of the model, base texts)
     "guard": ["k >= 0 && g == fn(k)", "forall (z : int[0,1]) h[z] >= k", "g > (k > 0 ? 1 : 2)"],
-    "invariant": ["x <= k + 5", "x <= 10 && g >= k"],
+    "invariant": ["x <= k + 5", "x <= 10 && g >= k", "forall (z : int[0,1]) h[z] >= k && x <= 9"],
     "synchronisation": ["c[k]!", "c[fn(k)]?"],
     "assignment": ["g = k, h[k] = fn(g)", "g = (k > 0 ? k : g), h[0] = 0"],
     "probability": ["k + 1", "fn(k)"],
-    "exponentialrate": ["k + 1", "2 * fn(k)"],
+    "exponentialrate": ["k + 1", "2 * fn(k)", "1 + (sum (z : int[0,1]) h[z])"],
 }
 
 
@@ -42,9 +42,8 @@ def model(kind, text):
          "probability": "k + 2"}
     if kind in d:
         d[kind] = text
-    loc0 = lab("invariant", d["invariant"]) if kind != "exponentialrate" else lab("exponentialrate", d["exponentialrate"])
-    if text is None and kind in ("invariant", "exponentialrate"):
-        loc0 = ""
+    # the first location carries both an invariant and a rate: a fault in one of them must leave the other alone
+    loc0 = "".join(lab(kd, d[kd]) for kd in ("invariant", "exponentialrate") if not (kd == kind and text is None))
     e0 = lab("select", "k : int[0,3]") + "".join(lab(kd, d[kd]) for kd in ("guard", "synchronisation", "assignment")
                                                  if not (kd == kind and text is None))
     eprob = lab("probability", d["probability"]) if not (kind == "probability" and text is None) else ""
@@ -66,7 +65,7 @@ def model(kind, text):
 
 XPATH = {"guard": "/nta/template[1]/transition[1]/label[2]", "synchronisation": "/nta/template[1]/transition[1]/label[3]",
          "assignment": "/nta/template[1]/transition[1]/label[4]", "invariant": "/nta/template[1]/location[1]/label[1]",
-         "exponentialrate": "/nta/template[1]/location[1]/label[1]", "probability": "/nta/template[1]/transition[3]/label[1]"}
+         "exponentialrate": "/nta/template[1]/location[1]/label[2]", "probability": "/nta/template[1]/transition[3]/label[1]"}
 TOKEN = re.compile(r"[A-Za-z_][A-Za-z_0-9]*|\d+|==|<=|>=|!=|&&|\|\||\+\+|--|[-+*/%<>=!?:;,.(){}\[\]&|^']")
 SIGMA = ["k", "g", "h", "x", "c", "fn", "zz", "0", "1", "(", ")", "[", "]", "{", "}", ",", ";", ":", ".", "'", "?", "!", "+", "-", "<", "<=",
          "==", "&&", "=", "++", "forall", "exists", "int", "true", "/*", "@", "2147483648", "1.5"]
